@@ -28,9 +28,12 @@ pub enum Op {
     Flatten,
     Clone,
     IntoIter,
+    /// `add_sibling_alts_for_unknown_field` on a bundle (what a `flatten` member's parent does):
+    /// the tree keeps its shape, locations and spans
+    AddAlts,
 }
 
-pub const OPS: [Op; 11] = [Op::Leaf, Op::SynLeaf, Op::At, Op::AtSame, Op::WithSpan, Op::Multiple1, Op::Multiple2, Op::Multiple3, Op::Flatten, Op::Clone, Op::IntoIter];
+pub const OPS: [Op; 12] = [Op::Leaf, Op::SynLeaf, Op::At, Op::AtSame, Op::WithSpan, Op::Multiple1, Op::Multiple2, Op::Multiple3, Op::Flatten, Op::Clone, Op::IntoIter, Op::AddAlts];
 
 const MAX_STACK: usize = 4;
 const N_KINDS: u32 = 11;
@@ -178,6 +181,8 @@ impl Machine {
                 Some(RT::Leaf { .. }) => true,
                 None => false,
             },
+            // only where it has something to walk: a bundle that contains a bundle
+            Op::AddAlts => matches!(model.last(), Some(RT::Multi { kids, .. }) if kids.iter().any(|k| matches!(k, RT::Multi { .. }))),
         }
     }
     pub fn apply(&mut self, op: Op) {
@@ -235,6 +240,10 @@ impl Machine {
                 self.real.push(e);
                 let m = self.model.last().unwrap().clone();
                 self.model.push(m);
+            }
+            Op::AddAlts => {
+                let e = self.real.pop().unwrap();
+                self.real.push(e.add_sibling_alts_for_unknown_field(&["zqzqzq", "qzqzqz"]));
             }
             Op::IntoIter => {
                 let e = self.real.pop().unwrap();
@@ -385,6 +394,11 @@ impl Machine {
             let msg = d.to_string();
             if !only_spans && msg != kind && msg != full {
                 return Err(format!("diagnostic {i} says `{msg}`, expected `{kind}` or `{full}`"));
+            }
+            // a leaf without any span (own or inherited) has nowhere to point: its message
+            // must carry the path
+            if !spans && l.span.is_none() && !l.syn && msg != full {
+                return Err(format!("diagnostic {i} for an unspanned leaf says `{msg}`, expected `{full}` (path included)"));
             }
             if spans {
                 match l.span {
@@ -545,6 +559,7 @@ fn model_step(model: &[RT], hist: &[Op], op: Op) -> Vec<RT> {
             let t = m.last().unwrap().clone();
             m.push(t);
         }
+        Op::AddAlts => {}
         Op::IntoIter => match m.pop().unwrap() {
             RT::Multi { kids, .. } => m.extend(kids),
             leaf => m.push(leaf),
@@ -573,42 +588,51 @@ impl Model for TreeModel {
         let model = model_step(&s.model, &s.hist, a);
         let mut hist = s.hist.clone();
         hist.push(a);
-        Some(S { model, hist })
+        let next = S { model, hist };
+        // Every TRANSITION is replayed on the real code and judged, not only every state: with
+        // states merged on the reference stack, a transition into an already visited state
+        // would otherwise never be compared with the implementation.
+        self.judge(&next);
+        Some(next)
     }
     fn properties(&self) -> Vec<Property<Self>> {
-        vec![Property::always("real Error agrees with the reference tree", |m: &TreeModel, s: &S| {
-            let mut t = Tally::default();
-            t.evaluations += 1;
-            t.traces += 1;
-            let nleaves: usize = s.model.last().map(|x| x.all_leaves().len()).unwrap_or(0);
-            let bundles = s.model.last().map(|x| x.size() - nleaves).unwrap_or(0);
-            if bundles > 0 {
-                t.nontrivial += 1;
+        vec![Property::always("real Error agrees with the reference tree (judged per transition)", |_m: &TreeModel, _s: &S| true)]
+    }
+}
+
+impl TreeModel {
+    fn judge(&self, s: &S) {
+        let m = self;
+        let mut t = Tally::default();
+        t.evaluations += 1;
+        t.traces += 1;
+        let nleaves: usize = s.model.last().map(|x| x.all_leaves().len()).unwrap_or(0);
+        let bundles = s.model.last().map(|x| x.size() - nleaves).unwrap_or(0);
+        if bundles > 0 {
+            t.nontrivial += 1;
+        }
+        t.class(&format!("leaves={} bundles={}", nleaves.min(5), bundles.min(3)));
+        let hist = s.hist.clone();
+        let (sp, os) = (m.spans, m.only_spans);
+        match catch(std::panic::AssertUnwindSafe(|| {
+            let mut mach = Machine::new();
+            for op in &hist {
+                mach.apply(*op);
             }
-            t.class(&format!("leaves={} bundles={}", nleaves.min(5), bundles.min(3)));
-            let hist = s.hist.clone();
-            let (sp, os) = (m.spans, m.only_spans);
-            match catch(std::panic::AssertUnwindSafe(|| {
-                let mut mach = Machine::new();
-                for op in &hist {
-                    mach.apply(*op);
-                }
-                // the replayed model must equal the state the checker holds
-                if mach.model != s.model {
-                    return Err("machinery: replayed model differs from checker state".to_string());
-                }
-                drop(mach);
-                check_history(&hist, sp, os)
-            })) {
-                Ok(Ok(())) => {}
-                Ok(Err(msg)) => t.violate(violation(m.prop, &hist, msg)),
-                Err(p) => t.violate(violation(m.prop, &hist, format!("panic: {p}"))),
+            // the replayed model must equal the state the checker holds
+            if mach.model != s.model {
+                return Err("machinery: replayed model differs from checker state".to_string());
             }
-            let mut g = m.tally.lock().unwrap();
-            let cur = std::mem::take(&mut *g);
-            *g = cur.merge(t);
-            true
-        })]
+            drop(mach);
+            check_history(&hist, sp, os)
+        })) {
+            Ok(Ok(())) => {}
+            Ok(Err(msg)) => t.violate(violation(m.prop, &hist, msg)),
+            Err(p) => t.violate(violation(m.prop, &hist, format!("panic: {p}"))),
+        }
+        let mut g = m.tally.lock().unwrap();
+        let cur = std::mem::take(&mut *g);
+        *g = cur.merge(t);
     }
 }
 
@@ -665,7 +689,7 @@ pub fn main(args: &Args) {
         rep.set(k, v.clone());
     }
     rep.rule = format!(
-        "stateright BFS over build histories of length <= {depth} on a stack (<= {MAX_STACK}) of real darling::Error values; operations {OPS:?}; leaves rotate through all 11 constructors + syn::Error conversion; states are merged on the reference stack (argument in DESIGN.md C04); each state's history is replayed on the real code and compared with the reference tree (len, flatten order/paths/Display, flatten idempotence, into_iter, syn::Error diagnostics, write_errors); non-trivial = top of stack contains at least one bundle"
+        "stateright BFS over build histories of length <= {depth} on a stack (<= {MAX_STACK}) of real darling::Error values; operations {OPS:?}; leaves rotate through all 11 constructors + syn::Error conversion; states are merged on the reference stack and the depth (argument in DESIGN.md C04); EVERY TRANSITION's history (not only the first history reaching a state) is replayed on the real code and compared with the reference tree (len, flatten order/paths/Display, flatten idempotence, into_iter, syn::Error diagnostics, write_errors); non-trivial = top of stack contains at least one bundle"
     );
     rep.assumptions = vec!["kind-specific message text is taken from darling's own constructors (rewording is not an alarm)".into()];
     rep.tally.samples.push(json!({"history": ["Leaf", "Leaf", "Multiple2", "At", "Leaf", "Multiple2", "At", "Flatten"], "expect": "3 leaves; first two display `.. at p1/p0`, third `.. at p1`"}));
